@@ -16,7 +16,7 @@ EXPLANATION = ('fracture: returns immediately for max_points <= 4; the final loo
                'intersection with non-zero fill, positions are rounded with llround(scaling x position). The three vertex-limit '
                'blocks of Cell::to_gds are clones and route every piece through Polygon::to_gds. Region preservation, non-overlap, '
                'termination of re-slicing and the vertex bound are not decided (value dependent).')
-ADVISORY = [('R-DEP', r'^slice/strip-chaining')]
+ADVISORY = [('R-DEP', r'^slice/strip-chaining'), ('R-CLONE', r'^Cell::to_gds vertex-limit blocks/')]
 ASSUMPTIONS = ['Clipper intersection semantics (external)']
 XREF_FILES = ['src/polygon.cpp', 'src/clipper_tools.cpp', 'src/cell.cpp']
 norm = C05.norm
@@ -171,7 +171,24 @@ def check_call_sites(ctx, db):
         txt = txt.replace('ErrorCode V = ', '(V = ').replace('(V = V->to_gds($out, $scaling))', 'ERR = V->to_gds($out, $scaling)').replace('(V = V->to_gds($out, $scaling)', 'ERR = V->to_gds($out, $scaling)')
         txt = re.sub(r'^\s*ErrorCode V\n', '', txt, flags=re.M)
         mem.append(('Cell::to_gds[limit@%d]' % i.l, i.loc(), txt))
-    clone.check_family(ctx, 'R-CLONE', 'Cell::to_gds vertex-limit blocks', mem, 3)
+    clone.check_family(ctx, 'R-CLONE', 'Cell::to_gds vertex-limit blocks', mem, 3)     # advisory: the absolute obligations follow
+    for i in sites:
+        # the piece array is emptied after its pieces were written: the next polygon's pieces must not follow stale (released) ones
+        fr = next(x for x in i.child('then').walk() if x.k == 'CXXMemberCallExpr' and (x.callee or '').endswith('Polygon::fracture'))
+        dest = lvalue_key(_strip_casts(fr.args[2])) if len(fr.args) >= 3 else None
+        loops_ = [x for x in i.child('then').walk() if x.k in ('ForStmt', 'WhileStmt', 'DoStmt') and any(y.k == 'CXXMemberCallExpr' and (y.callee or '').endswith('Polygon::to_gds') for y in x.walk())]
+        ok = False
+        if dest is not None and loops_:
+            lp = loops_[0]
+            for x in i.child('then').walk():
+                if x.pos <= lp.pos or any(a is lp for a in x.ancestors()):
+                    continue
+                if x.k == 'BinaryOperator' and x.op == '=' and lvalue_key(_strip_casts(x.child('lhs'))) == dest + '.count' and _strip_casts(x.child('rhs')).cv == 0:
+                    ok = True
+                if x.k == 'CXXMemberCallExpr' and (x.callee or '').endswith('::clear') and x.child('obj') is not None and lvalue_key(_strip_casts(x.child('obj'))) == dest:
+                    ok = True
+        ctx.check(ok, 'R-PAIR', 'Cell::to_gds/pieces-emptied@%d' % i.l, i.loc(), 'the array that received the pieces is emptied after they were written, before the next polygon is fractured into it',
+                  'the piece array `%s` is not emptied after the pieces were written: the next polygon above the limit is followed by the stale pieces of this one' % dest)
     for i in sites:
         c = norm(i.child('cond').text(clone.Renamer(f, params_by_name=True)))
         ok = re.match(r'^\(\(\$max_points >=? \d+\) && \(v\d+->point_array\.count > \$max_points\)\)$', c) is not None
